@@ -224,17 +224,27 @@ class IcStream(Stream):
 
 TRUSTED = [
     "Coq 8.16.1 kernel + vm_compute (no native_compute)",
-    "hand-written model Kernel.v; tied to /repo by this correspondence run (sampled)",
+    "hand-written model Kernel.v; tied to /repo (a) for ALL inputs by the translation obligation: harness/translate_kernel.py "
+    "(trusted, fail-closed, ~250 lines) turns the current source of S_matrix.add / int_complete into Gallina and "
+    "coq/templates/KernelSrcProof.v proves it equal to Kernel.sadd / Kernel.int_complete; (b) by this correspondence run (sampled)",
+    "translator's reading of numpy: matmul / linalg.inv / linalg.solve / identity / + / - are the matrix operations of that name, "
+    "slice-wise over a leading batch axis; solve(E, r) = inv(E) r for invertible E",
     "harness: generators, float->dyadic transport (fractions.Fraction / math.frexp), case emitter, verdict parser",
     "numpy matmul / linalg.inv / linalg.solve / broadcasting are exercised, not verified",
 ]
 
 if __name__ == "__main__":
+    import translate_kernel
+    from common import source_obligation
     main("C18", [AddStream(), IcStream()],
+         source_obligations=[source_obligation("KernelSrc_C18", translate_kernel.translate, "KernelSrcProof.v",
+                                               ["add_src_is_sadd", "int_complete_src_is_model"])],
          level_text="Theorems in props/C18.v hold for all dimensions and all fields satisfying the laws "
                     "(sadd_sound/complete/unique: exact elimination; sadd_assoc; sadd_thru_l/r; sadd_dim; "
                     "int_complete_ok; sadd_batch_slices). The correspondence ties the same Gallina definitions, "
-                    "run over Gaussian rationals, to S_matrix.add / int_complete on random reflective blocks.",
+                    "run over Gaussian rationals, to S_matrix.add / int_complete on random reflective blocks. In addition the "
+                    "CURRENT source text of both routines is translated to Gallina on every run and proved equal to the model "
+                    "for all operands (add_src_is_sadd, int_complete_src_is_model): the tie of the kernel is not only sampled.",
          trusted_base=TRUSTED,
          assumptions=["theorems are conditional on the model returning Ok (inner systems invertible)",
                       "floating-point round-off abstracted by tolerance 1e-9"])
